@@ -347,6 +347,45 @@ def kpoints_histories():
         return at.kpts, fr.kpts
 
     H["Atoms in path mode: build(); a = triclinic cell; build()"] = h7
+
+    # the SAME mesh assigned again after the object has drifted away from it: an assignment always asks for that mesh
+    def h8():
+        k = fresh(kmesh=[3, 2, 2], gamma_centered=False)
+        k.build()
+        k.trs()
+        k.kmesh = [3, 2, 2]
+        return k.build(), fresh(kmesh=[3, 2, 2], gamma_centered=False).build()
+
+    def h9():
+        k = fresh(kmesh=[2, 2, 1])
+        k.build()
+        k.a = np.array([[5.0, 0.0, 0.4], [0.3, 8.0, 0.0], [0.0, 0.2, 6.0]])
+        k.kmesh = [2, 2, 1]
+        f = fresh(kmesh=[2, 2, 1])
+        f.a = np.array([[5.0, 0.0, 0.4], [0.3, 8.0, 0.0], [0.0, 0.2, 6.0]])
+        return k.build(), f.build()
+
+    def h10():
+        k = fresh(kmesh=[2, 1, 2])
+        k.build()
+        k.wk = [0.1, 0.2, 0.3, 0.4]
+        k.kmesh = [2, 1, 2]
+        return k.build(), fresh(kmesh=[2, 1, 2]).build()
+
+    def h11():
+        k = fresh()
+        k.path = "GXM"
+        k.Nk = 8
+        k.build()
+        k.path = "GXM"
+        k.Nk = 8
+        f = fresh()
+        f.path = "GXM"
+        f.Nk = 8
+        return k.build(), f.build()
+
+    H.update({"MP 3x2x2 -> trs() -> the same kmesh again": h8, "mesh -> cell of the KPoints object replaced -> the same kmesh again": h9,
+              "mesh -> wk set by hand -> the same kmesh again": h10, "path -> the same path and Nk again": h11})
     bad = []
     for name, h in H.items():
         try:
